@@ -294,7 +294,7 @@ class Interp:
     def _seed_facts(self, st):
         for f, val in self.valuation:
             st.facts.eq[f.key()] = val
-            st.facts.none[f.key()] = False
+            st.facts.none[f.key()] = isinstance(val, Const) and val.v is None
         items = []
         for name, a in self.assumptions.items():
             if isinstance(a, list):
@@ -569,7 +569,14 @@ class Interp:
         if self.keep_cond_forms:
             ncalls, nnotes = len(self.calls), len(self.none_arith)
             try:
-                self.cond_forms[src] = self.eval(s.test, State(fork_env(st.env), st.facts.copy(), list(st.conds)), fi, depth)
+                cf = self.eval(s.test, State(fork_env(st.env), st.facts.copy(), list(st.conds)), fi, depth)
+                if src in self.cond_forms and vkey(self.cond_forms[src]) != vkey(cf):
+                    # the same test text evaluated on different values (unrolled table rows): keep the records apart
+                    k_ = 2
+                    while f"{src} #{k_}" in self.cond_forms:
+                        k_ += 1
+                    src = f"{src} #{k_}"
+                self.cond_forms[src] = cf
             except Exception:
                 pass
             del self.calls[ncalls:]
@@ -1087,6 +1094,11 @@ class Interp:
                 at = b_.single_atom()
                 if at == ("sym", "self.__class__") and self.self_class:
                     return self.self_class == a_.name.split(".")[-1]
+                e_ = st.facts.eq.get(b_.key())
+                if isinstance(e_, ClassRef):
+                    return e_.name.split(".")[-1] == a_.name.split(".")[-1]     # `inferred is complex` with an assumed class
+                if isinstance(e_, Const):
+                    return False
         return None
 
     def _is_none(self, v, st):
@@ -1892,7 +1904,8 @@ class Interp:
             if m is not None and len(parts) == 4 and parts[2] in m.globals and parts[2] != "gv" and parts[2] not in m.classes:
                 # method of a module-level object (lookup table): TABLE.get(key), TABLE.items() ...
                 obj = self._global_value(".".join(parts[:3]), fi)
-                if isinstance(obj, (DictV, TupleV)):
+                oa = obj.single_atom() if isinstance(obj, Form) else None
+                if isinstance(obj, (DictV, TupleV)) or (oa is not None and oa[0] == "fn" and oa[1] == "re.compile"):
                     rec.callee = f"<{type(obj).__name__}>.{parts[3]}"
                     return self._method_call(obj, parts[3], args, kwargs, st, fi, depth, n, rec)
             if len(parts) >= 4 and parts[2] == "gv":
@@ -2199,6 +2212,11 @@ class Interp:
                     return Form.atom(("meth", base, attr, tuple(map(as_value, args)), tuple(sorted((k, as_value(v)) for k, v in kwargs.items()))))
             if s is not None and s.rsplit(".", 1)[-1] in ("signal", "noise", "data") and attr not in NDARRAY_API:
                 self.bad_attrs.append((fi, n, base, attr))
+            ba = base.single_atom()
+            if ba is not None and ba[0] == "fn" and ba[1] == "re.compile" and ba[2] and attr in ("match", "fullmatch", "search", "split", "sub", "findall"):
+                # a precompiled pattern: P.match(s) is re.match(pattern, s)
+                rec.callee = "re." + attr
+                return mk_fn("re." + attr, [ba[2][0]] + [as_value(x) for x in args], [(k, as_value(v)) for k, v in kwargs.items()])
             if attr in _IDENTITY_METHODS:
                 if attr == "astype" and self.keep_astype:
                     return mk_fn("astype", [base] + [as_value(a) for a in args])
@@ -2307,7 +2325,7 @@ def _literal_like(g):
         if isinstance(n, ast.Call):
             f = n.func
             nm = f.attr if isinstance(f, ast.Attribute) else (f.id if isinstance(f, ast.Name) else "")
-            if nm not in ("log", "log2", "log10", "sqrt", "exp", "float", "int", "tuple", "frozenset", "dict", "list", "set"):
+            if nm not in ("log", "log2", "log10", "sqrt", "exp", "float", "int", "tuple", "frozenset", "dict", "list", "set", "compile"):
                 return False
         elif isinstance(n, (ast.Await, ast.Yield, ast.YieldFrom, ast.NamedExpr, ast.ListComp, ast.DictComp, ast.SetComp, ast.GeneratorExp)):
             return False
